@@ -7,7 +7,8 @@ import PlinioVerif.Model.MPS
 mps pc=<0|1> ap=[8,2,4] ip=[2,8] wp=[4,2] nodes=[in:3,conv:0:2:3:4:3:3:8:8:1,pass:1,...]
     ao=[0:[1/2,3/4],1:[..]] aw=[1:[..]]            (per-channel: aw=[1:[[row0],[row1]]])
 ```
-node tokens: `in:C`, `conv|dw:a:lt:cin:cout:k0:k1:o0:o1:bias` (lt 1|2), `lin:a:cin:cout:bias`,
+node tokens: `in:C`, `conv|dw:a:lt:cin:cout:k0:k1:o0:o1:bias[:dup]` (lt 1|2; dup=1: further call site
+of an earlier layer module), `lin:a:cin:cout:bias`,
 `pass:a`, `flat:a:mult`, `add:a:b`, `out:a`.  `ao`/`aw` give, per node index of a searchable module,
 the coefficients of the object found at its out / weight slot; the model reads the coefficients of a
 quantizer *object* at the first slot that carries it (its own sharing), so a sharing mismatch shows
@@ -26,6 +27,12 @@ def parseNode? (t : String) : Option Node :=
     let lt ← if lt = "1" then some LType.conv1d else if lt = "2" then some LType.conv2d else none
     pure { kind, a := ← a.toNat?, lt, cin := ← cin.toNat?, cout := ← cout.toNat?, k0 := ← k0.toNat?,
            k1 := ← k1.toNat?, o0 := ← o0.toNat?, o1 := ← o1.toNat?, bias := b = "1" }
+  | [k, a, lt, cin, cout, k0, k1, o0, o1, b, dup] => do
+    -- a further invocation of a layer module invoked earlier (same geometry, own output shape)
+    let kind ← if k = "conv" then some Kind.conv else if k = "dw" then some Kind.dw else none
+    let lt ← if lt = "1" then some LType.conv1d else if lt = "2" then some LType.conv2d else none
+    pure { kind, a := ← a.toNat?, lt, cin := ← cin.toNat?, cout := ← cout.toNat?, k0 := ← k0.toNat?,
+           k1 := ← k1.toNat?, o0 := ← o0.toNat?, o1 := ← o1.toNat?, bias := b = "1", dup := dup = "1" }
   | ["lin", a, cin, cout, b] => do
     pure { kind := .linear, a := ← a.toNat?, lt := .linear, cin := ← cin.toNat?, cout := ← cout.toNat?,
            bias := b = "1" }
@@ -175,7 +182,7 @@ def answer (r : Req) : String :=
   let diff := (slots r.p).any fun s => inQ r.p s ≠ inQPinned r.p s
   s!"wire={showWire r.p (inQ r.p)} pinned={showWire r.p (inQPinned r.p)} pindiff={showBool diff} " ++
   s!"plan={showPlan r} feat={feat} shown={shown} lc={lc} mp={mp} " ++
-  s!"cost=[params_bit:{showRat (netCost paramsBit r.p r.c sm)},ops_bit:{showRat (netCost opsBit r.p r.c sm)}] " ++
+  s!"cost=[params_bit:{showRat (netCostShared paramsBit r.p r.c sm)},ops_bit:{showRat (netCost opsBit r.p r.c sm)}] " ++
   s!"mpic={showOptRat mpTot}"
 
 /-- `costfn name=params_bit|ops_bit|mpic_latency|macs lt=1|2|3 dw=0|1 in= out= k0= k1= o0= o1= bias= pin= pw=` -/
